@@ -28,4 +28,25 @@ func init() {
 		Assumes: []string{aEmit, aJudge, "precondition (assumed here, decided in mode T): error-returning assignments/hooks are only handed to FuncToString for functions with an error result"}})
 	reg(&HarnessSpec{Prop: "C07", Name: "C07ErrFlowDeep", Tier: "thorough",
 		What: "C07ErrFlow with nested structs inside nested structs (depth 2)", Bounds: "depth 2", Assumes: []string{aEmit, aJudge}})
+
+	// ---------------------------------------------------------------- C18
+	aEnv := "flag.*, os.Getenv, os.Exit, os.Stat/OpenFile/WriteFile, fmt.Print*, imports.Process and format.Source are nondeterministic effect-recording stubs (DESIGN.md 3.2)"
+	reg(&HarnessSpec{Prop: "C18", Name: "C18ParseArgs",
+		What:    "real Config.ParseArgs with -out/-log/-dry/-print, the positional argument and GOFILE symbolic: Input = positional else GOFILE; Output = -out else Input with .gen inserted before the extension (reference: last '.' of the last '/'-element, stated with LastIndex, independent of path.Ext's loop); Log = Output with extension replaced by .log iff -log; flags copied",
+		Bounds:  "paths are ASCII byte vectors (bytes 1..127) of length 0..10, every length case-split, every byte symbolic",
+		Assumes: []string{aEnv, "real flag parsing (flags after the positional argument are ignored by package flag) is outside the claim"}})
+	reg(&HarnessSpec{Prop: "C18", Name: "C18NoInput", Replay: "none",
+		What: "no positional argument and empty GOFILE: usage and exit status 1", Bounds: "-out symbolic <= 10 bytes", Assumes: []string{aEnv}})
+	reg(&HarnessSpec{Prop: "C18", Name: "C18Generate", Replay: "e2e-cli",
+		What:    "real Generator.Generate/generateContent with symbolic base code, output path, print and dry flags and nondeterministic formatter/write outcomes: on success with -print stdout got exactly the returned bytes + newline (with and without -dry); the file got the same bytes, mode 0644, at the output path; never written under -dry or after a formatter failure",
+		Bounds:  "base code <= 30 bytes (SMT string), no function blocks", Assumes: []string{aEnv}})
+	reg(&HarnessSpec{Prop: "C18", Name: "C15Run", Replay: "e2e-cli",
+		What:    "real runner.Run with all stages summarised (arbitrary result/error): -log opens exactly <conf.Log> first with O_RDWR|O_CREATE|O_TRUNC and changes neither the later effects nor the error result",
+		Bounds:  "conf strings <= 10 bytes (SMT strings); 0..2 function blocks", Assumes: []string{aEnv, "stage summaries: NewParser, Parse, CreateFunctions, GenerateBaseCode return arbitrary values/errors and have no file-system effect of their own (their real code is covered by the mode-T harnesses and the SSA effect inventory)"}})
+	// ---------------------------------------------------------------- C15
+	reg(&HarnessSpec{Prop: "C15", Name: "C15Run", Replay: "e2e-cli",
+		What:    "real runner.Run + Generate with all stages summarised: the only file-system effects are OpenFile(conf.Log) iff conf.Log != \"\" (first) and at most one WriteFile(conf.Output, formatted, 0644), which happens iff !DryRun and every stage and both formatters succeeded and is the last file-system effect; every failure is reported",
+		Bounds:  "conf strings <= 10 bytes; 0..2 function blocks; every subset of stage failures", Assumes: []string{aEnv, "stage summaries as in C18/C15Run"}})
+	reg(&HarnessSpec{Prop: "C15", Name: "C18Generate", Replay: "e2e-cli",
+		What: "Generate's write discipline (see C18Generate)", Bounds: "base code <= 30 bytes", Assumes: []string{aEnv}})
 }
